@@ -413,6 +413,27 @@ pub fn gen_case(rng: &mut Rng, n: usize) -> Case {
                 bits[c.1 as usize] = true;
             }
             let list = decl.iter().map(|(n, p)| format!("{n}({p})")).collect::<Vec<_>>().join(", ");
+            if rng.chance(1, 4) {
+                // a bstring / hstring literal governed by the named-bit type, shorter or longer than the named positions reach
+                // (a named-bit list does not limit the length; trailing 0 bits are insignificant, X.680 22.7)
+                let len = rng.below(20);
+                let mut lit: Vec<bool> = (0..len).map(|_| rng.chance(1, 2)).collect();
+                let hex = rng.chance(1, 3);
+                if hex {
+                    while lit.len() % 4 != 0 {
+                        lit.push(false);
+                    }
+                }
+                let text = if hex {
+                    format!("'{}'H", lit.chunks(4).map(|c| format!("{:X}", c.iter().fold(0u8, |a, b| a * 2 + *b as u8))).collect::<String>())
+                } else {
+                    format!("'{}'B", lit.iter().map(|b| if *b { '1' } else { '0' }).collect::<String>())
+                };
+                let inline = rng.chance(1, 3);
+                let types = if inline { String::new() } else { t(&format!("Tb@ ::= BIT STRING {{ {list} }}\n")) };
+                let ty = if inline { format!("BIT STRING {{ {list} }}") } else { t("Tb@") };
+                return Case { types, ty, val: text, expected: AV::Bits(lit), trailing_zeros_insignificant: true, as_default: true, form: "bitstring/literal-governed-by-named-bit-type" };
+            }
             let val = format!("{{ {} }}", chosen.iter().map(|c| c.0.clone()).collect::<Vec<_>>().join(", "));
             if rng.chance(1, 3) {
                 // the governing type written in line (anonymous): several such types with lists of their own meet in one module
